@@ -22,9 +22,26 @@ Proof.
   split; nra.
 Qed.
 
+Lemma div_between : forall c lo hi d, 0 < c -> 0 < lo -> lo <= d -> d <= hi -> c / hi <= c / d <= c / lo.
+Proof.
+  intros c lo hi d Hc Hlo H1 H2. unfold Rdiv. split; apply Rmult_le_compat_l; try lra; apply Rinv_le_contravar; lra.
+Qed.
+
 (* the Ciddor factor exceeds 1 wherever sigma^2 <= 26 (lambda >= 1961 A) *)
 Lemma g_range : forall s, 0 <= s <= 26 -> 1 + 27 / 100000 <= g s <= 1 + 4 / 10000.
-Proof. intros s H. unfold airtovac_fact_R. split; interval. Qed.
+Proof.
+  intros s H. unfold airtovac_fact_R.
+  pose proof (div_between (1158421 / 20000000) (476037 / 2000 - 26) (476037 / 2000) (476037 / 2000 - s)) as A.
+  pose proof (div_between (167917 / 100000000) (28681 / 500 - 26) (28681 / 500) (28681 / 500 - s)) as B.
+  assert (A' := A ltac:(lra) ltac:(lra) ltac:(lra) ltac:(lra)).
+  assert (B' := B ltac:(lra) ltac:(lra) ltac:(lra) ltac:(lra)).
+  clear A B.
+  assert (E1 : 1158421 / 20000000 / (476037 / 2000) = 1158421 / 4760370000) by (field).
+  assert (E2 : 1158421 / 20000000 / (476037 / 2000 - 26) = 1158421 / 4240370000) by (field).
+  assert (E3 : 167917 / 100000000 / (28681 / 500) = 167917 / 5736200000) by (field).
+  assert (E4 : 167917 / 100000000 / (28681 / 500 - 26) = 167917 / 3136200000) by (field).
+  rewrite E1, E2 in A'. rewrite E3, E4 in B'. lra.
+Qed.
 
 Lemma sg_scale : forall a k, a <> 0 -> k <> 0 -> sg (a * k) = sg a / (k * k).
 Proof. intros. unfold airtovac_sigma2_R. field. split; assumption. Qed.
@@ -193,3 +210,8 @@ Proof.
     destruct (below_2000_unchanged v L) as [_ E]. rewrite E in Ha. lra. }
   rewrite airtovac_vactoair_err by assumption. apply err_va_bound. lra.
 Qed.
+
+Lemma mutual_inverse :
+  (forall a, 2000 <= a <= 300000 -> Rabs (vactoair_R (airtovac_R a) - a) <= 1 / 1000000) /\
+  (forall v, 2000 <= vactoair_R v -> v <= 300000 -> Rabs (airtovac_R (vactoair_R v) - v) <= 1 / 1000000).
+Proof. split. exact vactoair_airtovac. exact airtovac_vactoair. Qed.
